@@ -12,7 +12,7 @@ LEVEL = "model_checking"
 ENGINE = "toy"
 RULE = "toy"
 ASSUMPTIONS = []
-CHUNK = 1
+CHUNK = 40  # all cases go to ONE worker in index order: the order-dependent mode must not depend on the scheduler
 
 _CACHE = {}  # the 'bug': state carried from one run to the next
 
